@@ -12,7 +12,10 @@ SCHEMA_COPY = os.path.join(ROOT, "xpmc", "EVIDENCE.schema.json")
 
 
 def write(mod, pid, tier, seed, agg, extra, known, unlisted, confirmed, wall):
-    os.makedirs(os.path.join(ROOT, "evidence"), exist_ok=True)
+    # XPMC_EVIDENCE_DIR (development only): runs against a deliberately modified tree must not overwrite the evidence of
+    # the real tree; registered commands never set it
+    evdir = os.environ.get("XPMC_EVIDENCE_DIR") or os.path.join(ROOT, "evidence")
+    os.makedirs(evdir, exist_ok=True)
     capped = bool(agg["timeouts"] or agg["errors"] or extra.get("capped"))
     cov = {
         "evaluations": int(agg["evals"]),
@@ -48,7 +51,7 @@ def write(mod, pid, tier, seed, agg, extra, known, unlisted, confirmed, wall):
         "wall_s": round(float(wall), 2),
         "violations": len(unlisted),
     }
-    path = os.path.join(ROOT, "evidence", pid + ".json")
+    path = os.path.join(evdir, pid + ".json")
     tmp = path + ".tmp"
     with open(tmp, "w") as f:
         json.dump(ev, f, indent=1, sort_keys=True)
